@@ -152,7 +152,7 @@ def body_steps(ctx, case):
     L = min(L, cap)
     rs = np.random.RandomState(lseed)
     N = bspec["n"]
-    labels = rs.randint(0, cfg["classes"] + 1, size=(N, L))
+    labels = rs.randint(0, cfg["classes"] + 2, size=(N, L))       # any emitted symbol: characters, boundary, ignore
     labels[:, 0] = cfg["classes"]
     labels_t = torch.from_numpy(labels).long()
     desc = lambda: "case=%r" % (case,)
@@ -312,6 +312,18 @@ def body_run_ocr(ctx, case):
         ctx.check("​" not in s and all(ch in eng.characters[:cfg["classes"]] for ch in s), "special_character_in_text",
                   lambda: "%r; case=%r" % (s, case))
     ctx.check(len(decoded) == b["n"], "run_ocr_result_count", lambda: "case=%r" % (case,))
+    # the scores the engine's own entry point hands on are the per-step scores of the recomputed (uncached) decoding of
+    # the same padded input, and the strings are the decoding of their arg max up to the boundary symbol
+    Xp = np.transpose(X, (0, 3, 1, 2))
+    pad = np.zeros(Xp.shape[:3] + (1088,), dtype=Xp.dtype)
+    s0 = (1088 - Xp.shape[3]) // 2
+    pad[:, :, :, s0:s0 + Xp.shape[3]] = Xp
+    outs_u, logits_u = transcribe(make_engine(eng.net, cfg), pad, cached=False)
+    ctx.check(close(logits, logits_u, 1e-4), "run_ocr_scores_differ_from_recomputed_scores",
+              lambda: "shapes %r %r max difference %r; case=%r" % (np.shape(logits), logits_u.shape,
+                                                                   float(np.abs(np.asarray(logits) - logits_u).max()) if np.shape(logits) == logits_u.shape else None, case))
+    want = ["".join(eng.characters[c] for c in o if c not in (eng.sentence_boundary_ind, eng.ignore_ind)) for o in outs_u]
+    ctx.check(list(decoded) == want, "run_ocr_text_differs_from_recomputed_decoding", lambda: "%r vs %r; case=%r" % (decoded, want, case))
     if len(set(decoded)) >= 2:
         ctx.nontrivial(repr(case))
 
